@@ -132,7 +132,7 @@ impl Mux {
         let mut pos = 0usize; let mut firstp = true;
         while pos < pl.len() {
             let remain = pl.len() - pos;
-            let mut n = if firstp { match style { 2 => (1 + ptr + 8).max(rng.range(12, 40) as usize), _ => 184 } } else { match style { 1 => rng.range(1, 184) as usize, 2 => rng.range(1, 30) as usize, _ => 184 } };
+            let mut n = if firstp { match style { 2 => if rng.chance(1, 4) { 1 + ptr + 8 } else { (1 + ptr + 8).max(rng.range(12, 40) as usize) }, _ => 184 } } else { match style { 1 => rng.range(1, 184) as usize, 2 => rng.range(1, 30) as usize, _ => 184 } };
             n = n.min(remain).min(184);
             let last = pos + n == pl.len();
             if last && (style == 0 || rng.chance(1, 2)) {
